@@ -349,7 +349,7 @@ class PCase:
 
     def __init__(self, case_id, make, goals, *, extra_deg=2, budget_s=240.0, max_rows=120000,
                  validate=True, interp_kw=None, assumptions=(), per_entry=False, deepen=1, sq_mode="all",
-                 exact_timeout_ms=20000):
+                 exact_timeout_ms=20000, dce=False):
         self.id = case_id
         self.make = make
         self.goals = goals
@@ -363,6 +363,7 @@ class PCase:
         self.deepen = deepen
         self.sq_mode = sq_mode
         self.exact_timeout_ms = exact_timeout_ms
+        self.dce = dce
 
     def run(self, seed=0, log=print, replay_dir=None):
         t0 = time.time()
@@ -389,7 +390,7 @@ class PCase:
         dom = PolyDomain()
         dom.symbolic_sign_preds = True     # undecided comparisons become sign atoms instead of aborting the case
         fn, args = self.make(dom)
-        tr = Traced(fn, args)
+        tr = Traced(fn, args, dce=self.dce)
         env = {k: Fraction(v) for k, v in data["inputs"].items()}
         rep = self.replay_float(tr, args, env)
         label = data["label"]
@@ -425,7 +426,7 @@ class PCase:
         t = time.time()
         dom.symbolic_sign_preds = True     # undecided comparisons become sign atoms instead of aborting the case
         fn, args = self.make(dom)
-        tr = Traced(fn, args)
+        tr = Traced(fn, args, dce=self.dce)
         self.tr = tr
         out = tr.run_symbolic(dom, **self.interp_kw)
         it = tr.last_interp
